@@ -767,3 +767,60 @@ def gen_effects_table():
                 f'def {nm} : Unit := ⟨{lean_str(e["name"])}, {e["k"]}, {e["nv"]},\n  {EF.to_lean(e["prog"])}⟩\n\n')
     out += 'def units : List Unit := [' + ', '.join(names) + ']\n\nend PhotVerif.Gen.EffectsTable\n'
     return 'EffectsTable.lean', srcs, out
+
+
+def gen_isophote_table():
+    """skeleton of Ellipse.fit_image (growth loops) and of the corrector selection in EllipseFitter.fit (C20)"""
+    p1 = os.path.join(REPO, 'photutils/isophote/ellipse.py')
+    p2 = os.path.join(REPO, 'photutils/isophote/fitter.py')
+    p3 = os.path.join(REPO, 'photutils/isophote/geometry.py')
+    s1, s2, s3 = open(p1).read(), open(p2).read(), open(p3).read()
+    fit_image = _cls_method(ast.parse(s1), 'Ellipse', 'fit_image')
+    if fit_image is None:
+        raise Unsupported('Ellipse.fit_image not found')
+    loops = [n for n in fit_image.body if isinstance(n, ast.While)]
+    if len(loops) != 2:
+        raise Unsupported(f'fit_image: expected the outward and inward while-loops, found {len(loops)}')
+    out_loop, in_loop = loops
+    norm = lambda e: ast.unparse(e).replace(' ', '')
+    breaks = lambda loop: [norm(n.test) for n in ast.walk(loop) if isinstance(n, ast.If) and any(isinstance(b, ast.Break) for b in n.body)]
+    out_ok = norm(out_loop.test) == 'True' and 'maxsmaandsma>=maxsma' in breaks(out_loop)
+    in_guard = norm(in_loop.test) == 'sma>max(minsma,0.5)'
+    in_ok = 'sma<=max(minsma,0.5)' in breaks(in_loop) and 'isophote.stop_code==3' in breaks(in_loop)
+    upd = lambda loop: any(isinstance(n, ast.Assign) and norm(n.targets[0]) == 'sma' and norm(n.value) == 'isophote.sample.geometry.update_sma(step)'
+                           for n in ast.walk(loop))
+    reset = any(isinstance(n, ast.Assign) and norm(n.value) == 'first_isophote.sample.geometry.reset_sma(step)' for n in fit_image.body)
+    sorts = any(isinstance(n, ast.Expr) and norm(n.value) == 'isophote_list.sort()' for n in fit_image.body)
+    central = any(isinstance(n, ast.If) and norm(n.test) == 'minsma==0.0' for n in fit_image.body)
+    fixvec = 'np.array([fix_center,fix_center,fix_pa,fix_eps])' in norm(fit_image)
+    fit = _cls_method(ast.parse(s2), 'EllipseFitter', 'fit')
+    t = norm(fit) if fit is not None else ''
+    masked = ('free_coeffs=np.ma.masked_array(coeffs[1:],mask=fixed_parameters)' in t and 'largest_harmonic_index=np.argmax(np.abs(free_coeffs))' in t
+              and 'corrector=_CORRECTORS[largest_harmonic_index]' in t)
+    correctors = '_CORRECTORS=[_PositionCorrector0(),_PositionCorrector1(),_AngleCorrector(),_EllipticityCorrector()]' in s2.replace(' ', '').replace('\n', '')
+    geo = ast.parse(s3)
+    us, rs = _cls_method(geo, 'EllipseGeometry', 'update_sma'), _cls_method(geo, 'EllipseGeometry', 'reset_sma')
+    tu, trs = norm(us), norm(rs)
+    upd_ok = 'sma=self.sma+step' in tu and 'sma=self.sma*(1.0+step)' in tu
+    rst_ok = 'sma=self.sma-step' in trs and 'step=-step' in trs and 'aux=1.0/(1.0+step)' in trs and 'sma=self.sma*aux' in trs and 'step=aux-1.0' in trs
+    b = lambda v: 'true' if v else 'false'
+    src = s1 + s2 + s3
+    out = ('/- GENERATED by tools/extract_tables.py from photutils/isophote/{ellipse,fitter,geometry}.py '
+           f'(sha256/16 {sha(src)}). DO NOT EDIT. -/\n'
+           'import PhotVerif.Model.Prelude\nnamespace PhotVerif.Gen.IsophoteTable\n\n'
+           f'/-- the inward loop runs only while `sma > max(minsma, 0.5)` (also for the first inward value) -/\n'
+           f'def guardsFirstInward : Bool := {b(in_guard)}\n'
+           f'/-- outward loop: `if maxsma and sma >= maxsma: break` after `sma = update_sma(step)` -/\n'
+           f'def outwardBreaksAtMaxsma : Bool := {b(out_ok and upd(out_loop))}\n'
+           f'/-- inward loop: break on stop code 3 and when `sma <= max(minsma, 0.5)`; starts from `reset_sma(step)` of the first isophote -/\n'
+           f'def inwardBreaksAtMinsma : Bool := {b(in_ok and upd(in_loop) and reset)}\n'
+           f'/-- `isophote_list.sort()` before returning; the central pixel is added for `minsma == 0.0` -/\n'
+           f'def sortsResult : Bool := {b(sorts and central)}\n'
+           f'/-- `fix = [fix_center, fix_center, fix_pa, fix_eps]`, correctors [position0, position1, angle, ellipticity] -/\n'
+           f'def fixVectorOrder : Bool := {b(fixvec and correctors)}\n'
+           f'/-- the corrector is chosen by argmax |coeffs[1:]| over the parameters that are not fixed -/\n'
+           f'def freeCoeffsMaskedByFix : Bool := {b(masked)}\n'
+           f'/-- update_sma / reset_sma formulas as modelled -/\n'
+           f'def growthFormulas : Bool := {b(upd_ok and rst_ok)}\n\n'
+           'end PhotVerif.Gen.IsophoteTable\n')
+    return 'IsophoteTable.lean', src, out
